@@ -5,8 +5,8 @@ use educe::Educe;
 use core::cmp::Ordering;
 #[derive(Educe)]
 #[educe(Hash)]
-pub struct T { #[educe(Hash(ignore(true)))] b: A<0>, #[educe(Hash(method = "m_hash"))] other: A<1>, #[educe(Hash(method = "m_hash"))] f: A<2> }
-pub fn values() -> Vec<T> { vec![T { b: A(0), other: A(0), f: A(0) }, T { b: A(0), other: A(0), f: A(1) }, T { b: A(0), other: A(0), f: A(7) }, T { b: A(0), other: A(1), f: A(0) }, T { b: A(0), other: A(1), f: A(1) }, T { b: A(0), other: A(1), f: A(7) }, T { b: A(0), other: A(7), f: A(0) }, T { b: A(0), other: A(7), f: A(1) }, T { b: A(0), other: A(7), f: A(7) }, T { b: A(1), other: A(0), f: A(0) }, T { b: A(1), other: A(0), f: A(1) }, T { b: A(1), other: A(0), f: A(7) }, T { b: A(1), other: A(1), f: A(0) }, T { b: A(1), other: A(1), f: A(1) }, T { b: A(1), other: A(1), f: A(7) }, T { b: A(1), other: A(7), f: A(0) }, T { b: A(1), other: A(7), f: A(1) }, T { b: A(1), other: A(7), f: A(7) }, T { b: A(7), other: A(0), f: A(0) }, T { b: A(7), other: A(0), f: A(1) }, T { b: A(7), other: A(0), f: A(7) }, T { b: A(7), other: A(1), f: A(0) }, T { b: A(7), other: A(1), f: A(1) }, T { b: A(7), other: A(1), f: A(7) }, T { b: A(7), other: A(7), f: A(0) }, T { b: A(7), other: A(7), f: A(1) }, T { b: A(7), other: A(7), f: A(7) }] }
-pub fn show(x: &T) -> String { #[allow(unused_variables)] match x { T { b: p0, other: p1, f: p2 } => format!("T({},{},{})", sv(p0), sv(p1), sv(p2)) } }
-pub fn o_hash(x: &T) -> Vec<String> { let mut e = Rec::default(); match x { T { b: p0, other: p1, f: p2 } => { m_hash(p1, &mut e); m_hash(p2, &mut e); } } e.0 }
+pub struct T(#[educe(Hash(method("m_hash")))] A<0>, A<1>);
+pub fn values() -> Vec<T> { vec![T(A(0), A(0)), T(A(0), A(1)), T(A(0), A(7)), T(A(1), A(0)), T(A(1), A(1)), T(A(1), A(7)), T(A(7), A(0)), T(A(7), A(1)), T(A(7), A(7))] }
+pub fn show(x: &T) -> String { #[allow(unused_variables)] match x { T(p0, p1) => format!("T({},{})", sv(p0), sv(p1)) } }
+pub fn o_hash(x: &T) -> Vec<String> { let mut e = Rec::default(); match x { T(p0, p1) => { m_hash(p0, &mut e); ::core::hash::Hash::hash(p1, &mut e); } } e.0 }
 pub fn run(out: &mut Out) { let vs = values(); for a in &vs { let mut g = Rec::default(); ::core::hash::Hash::hash(a, &mut g); let e = o_hash(a); out.check(g.0 == e, "hash_2", "hash", || format!("hash({}) fed {:?} expected {:?}", show(a), g.0, e)); } }
